@@ -268,7 +268,8 @@ def run_k(kind, cases, tag, max_numbers=15000):
             f'Definition bad := mismatches {kind} 0 cases.\n'
             'Eval vm_compute in bad.\n'
             f'Eval vm_compute in map (fun i => run {kind} (fst (nth i cases ([],[])))) (firstn 3 bad).\n')
-        rc, out = sh(f'timeout 1200 coqc -R {COQ} Eudoxia -o {d}/k_{si}.vo {f}', timeout=1300)
+        # a single large case can exceed the default 8 MB stack while its literal is parsed
+        rc, out = sh(f'ulimit -s unlimited 2>/dev/null; timeout 1200 coqc -R {COQ} Eudoxia -o {d}/k_{si}.vo {f}', timeout=1300)
         if rc != 0:
             return base, None, None, out[-2000:]
         vals = _eval_outputs(out)
